@@ -72,6 +72,11 @@ func init() {
 			pf := newPatchFamily(w, v2, "v2")
 			ruleFWD(w, r, pf, []string{"pathAhead", "oldValues", "newValues", "strategy"})
 			ruleOptFwd(w, r, v2, "v2", "Option", patchSide, nil)
+			rulePathFresh(w, r, v2, "v2")
+			ruleKinds(w, r, v2)
+			ruleProv(w, r, v2, "v2", v2Prov)
+			r.Floor("R-PATHFRESH", 15)
+			r.Floor("R-KINDS", 5)
 			r.Floor("R-FWD", 50)
 			r.Floor("R-OPTFWD", 10)
 		}})
@@ -85,6 +90,8 @@ func init() {
 			pf := newPatchFamily(w, v2, "v2")
 			ruleFWD(w, r, pf, []string{"pathAhead", "before", "oldValues", "newValues", "after", "strategy"})
 			rulePatchResult(w, r, pf, listModePatch)
+			ruleExpect(w, r, pf, listModePatch)
+			r.Floor("R-EXPECT", 12)
 			r.Floor("R-FWD", 80)
 			r.Floor("R-PATCHRESULT", 10)
 		}})
@@ -99,6 +106,8 @@ func init() {
 			ruleTypeGuard(w, r, nt)
 			ruleHashDom(w, r, nt, nil)
 			ruleHashCover(w, r, nt)
+			ruleHashMove(w, r, nt)
+			ruleIdentUse(w, r, v2, "v2")
 			ruleOptFwd(w, r, v2, "v2", "Option", equalsSide, nil)
 			r.Floor("R-TYPEGUARD", 10)
 			r.Floor("R-HASHDOM", 10)
@@ -204,8 +213,46 @@ func init() {
 			nt := newNodeTypes(w, v2, "v2")
 			ruleOptFwd(w, r, v2, "v2", "Option", diffSide, nil)
 			ruleCongruence(w, r, nt)
+			ruleHashMove(w, r, nt)
+			ruleNoEmpty(w, r, v2, "v2", "Remove", "Add")
 			ruleHashDom(w, r, nt, map[string]bool{"jsonString": true, "jsonNumber": true, "jsonBool": true, "jsonNull": true, "jsonList": true, "jsonObject": true})
 			runCLI(w, r, "exit", "havediff", "optfwd")
 			r.Floor("R-OPTFWD", 40)
+		}})
+}
+
+func init() {
+	register(&PropSpec{ID: "C08",
+		Explain: "Decides that set / multiset / keyed-member hunks can only commit behind their expectations: (R-EXPECT) in jsonSet.patch and jsonMultiset.patch every success return that is not a forwarded nested result lies behind the loop over the removed members, every way round that loop passes the lookup hit and a successful Equals of the found member (multiset: the count-underflow schema), every other way out only returns errors, and the whole-value base case lies behind a successful Equals; (R-PATCHRESULT) the outcome of the nested patch of a keyed member is consumed; (R-FWD) the keyed member receives the caller's expectations; (R-KINDS) the path kinds a set/multiset diff emits are the kinds its patch accepts; (R-IDENTUSE) identity hashing (ident/pathIdent) is used only by set diff/patch, never by Equals/hashCode.",
+		NotDecided:  "Order independence and `other members untouched` on concrete values, non-array targets of set paths (a set hunk applied to a scalar replaces it), digest collisions.",
+		Assumptions: commonAssumptions,
+		Run: func(w *World, r *Report) {
+			v2 := w.Pkg(pathV2)
+			pf := newPatchFamily(w, v2, "v2")
+			ruleExpect(w, r, pf, setModePatch)
+			rulePatchResult(w, r, pf, setModePatch)
+			ruleFWD(w, r, pf, []string{"pathAhead", "before", "oldValues", "newValues", "after", "strategy"})
+			ruleOptFwd(w, r, v2, "v2", "Option", func(fn *ssa.Function) bool { return patchSide(fn) && !listModePatch(fn) || fn.Name() == "pathIdent" || fn.Name() == "ident" }, nil)
+			ruleKinds(w, r, v2)
+			ruleIdentUse(w, r, v2, "v2")
+			r.Floor("R-EXPECT", 6)
+		}})
+}
+
+var v2Prov = map[string]string{"Remove": "a", "Add": "b", "Before": "b", "After": "a"}
+
+func init() {
+	register(&PropSpec{ID: "C07",
+		Explain: "Decides structural necessary conditions of `every hunk is a real difference`: (R-NOEMPTY) an accumulated set/multiset hunk is emitted only behind a test that it removes or adds something, and the scalar diff returns the empty diff exactly on the Equals-true edge; (R-SETMEMBER) the set diff lists a member only on the miss edge of its lookup among the other side's members; (R-PROV) what a hunk removes is drawn from the receiver side only, what it adds from the argument side only; (R-PATHFRESH) a hunk owns its path, so it keeps addressing the location it was made for.",
+		NotDecided:  "That what a hunk removes differs from what it adds, leave-one-out redundancy, the list diff's discarding of an empty accumulator (closure over a mutable cell), multiset surplus counts (sign test on a count difference).",
+		Assumptions: commonAssumptions,
+		Run: func(w *World, r *Report) {
+			v2 := w.Pkg(pathV2)
+			ruleNoEmpty(w, r, v2, "v2", "Remove", "Add")
+			ruleSetMember(w, r, v2, "v2", "Remove", "Add")
+			ruleProv(w, r, v2, "v2", v2Prov)
+			rulePathFresh(w, r, v2, "v2")
+			r.Floor("R-PROV", 20)
+			r.Floor("R-PATHFRESH", 15)
 		}})
 }
